@@ -37,6 +37,8 @@ MARKERS = ["C14.NeverAboveLink.hostile", "C14.OrdinaryWithinProven.raised", "C14
            "C14.Converges.settled", "C14.Converges.limited", "C14.LogProbes.exact", "C14.MinimumRespected.v4",
            "C14.MinimumRespected.v6", "C14.MinimumRespected.capped"]
 MODEL_RULES = ["Mtu.Cooldown", "Mtu.Agreement"]      # reported, never deciding
+# what a caller of part() should pass to Result.finish(required_cov=...) for this part
+REQUIRED = RULES + MARKERS + ["C14.CaseExpectation"]
 DECIDING = ("C14.", "Mtu.NoPanic")
 
 CASE_RE = re.compile(r'^"CASE (\[[-0-9,\[\]]*\])"$', re.M)
@@ -300,7 +302,7 @@ def run(tier, seed):
         rule_text="case = environment script of one finished behaviour of MCMtu: (link MTU, family, cooldown, path limit, "
                   "EMSGSIZE or expiry, injections at named points) + the observables the contract determines; distinct = "
                   "distinct scripts + distinct seeded random recorded runs",
-        required_cov=RULES + MARKERS + ["C14.CaseExpectation"])
+        required_cov=REQUIRED)
 
 
 def replay(path):
